@@ -3,9 +3,11 @@
 package srv
 
 import (
+	"crypto/tls"
 	"errors"
 	"fmt"
 	"io"
+	"net"
 	"os"
 	"strings"
 	"sync"
@@ -73,19 +75,43 @@ func (e *Env) Stop() {
 
 // Raw is a raw client connection.
 type Raw struct {
-	C *pipe.Conn // client end
-	S *pipe.Conn // server end (observe Close)
-	R *tok.Reader
+	Conn net.Conn   // what the client reads/writes (the pipe end, or a TLS client on top of it)
+	C    *pipe.Conn // client end of the in-memory pipe
+	S    *pipe.Conn // server end (observe Close)
+	R    *tok.Reader
 	// All collects every framed line received.
 	All []*tok.Line
 	// Timeout for blocking reads.
 	Timeout time.Duration
 }
 
-// Dial opens a raw connection.
+// Dial opens a raw plaintext connection.
 func (e *Env) Dial() *Raw {
 	c, s := e.L.Dial()
-	return &Raw{C: c, S: s, R: &tok.Reader{R: c, Server: true}, Timeout: 10 * time.Second}
+	return &Raw{Conn: c, C: c, S: s, R: &tok.Reader{R: c, Server: true}, Timeout: 10 * time.Second}
+}
+
+// DialTLS opens a connection that is TLS from the first byte (implicit TLS):
+// the server end handed to the server is a *tls.Conn.
+func (e *Env) DialTLS(serverCfg, clientCfg *tls.Config) *Raw {
+	c, s := pipe.New()
+	e.L.DialConn(tls.Server(s, serverCfg))
+	tc := tls.Client(c, clientCfg)
+	return &Raw{Conn: tc, C: c, S: s, R: &tok.Reader{R: tc, Server: true}, Timeout: 10 * time.Second}
+}
+
+// StartTLS upgrades the client side to TLS (after the server's STARTTLS OK).
+func (r *Raw) StartTLS(clientCfg *tls.Config) error {
+	tc := tls.Client(r.C, clientCfg)
+	r.C.SetDeadline(time.Now().Add(r.Timeout))
+	err := tc.Handshake()
+	r.C.SetDeadline(time.Time{})
+	if err != nil {
+		return err
+	}
+	r.Conn = tc
+	r.R = &tok.Reader{R: tc, Server: true}
+	return nil
 }
 
 var ErrTimeout = errors.New("srv: timed out waiting for the server")
@@ -107,7 +133,7 @@ func (r *Raw) ReadLine() (*tok.Line, error) {
 
 // Send writes raw bytes.
 func (r *Raw) Send(s string) error {
-	_, err := r.C.Write([]byte(s))
+	_, err := r.Conn.Write([]byte(s))
 	return err
 }
 
